@@ -153,6 +153,11 @@ func (server *SugarDB) handleCommand(ctx context.Context, message []byte, conn *
 		handler = subCommand.HandlerFunc
 	}
 
+	// A command that only has subcommands (e.g. ACL, COMMAND, MODULE) has no handler of its own.
+	if handler == nil {
+		return nil, fmt.Errorf("command %s requires a subcommand", strings.ToUpper(cmd[0]))
+	}
+
 	if conn != nil && server.acl != nil && !embedded {
 		// Authorize connection if it's provided and if ACL module is present
 		// and the embedded parameter is false.
